@@ -344,7 +344,7 @@ def framing(ctx, bw, rd):
     for path, a in f.adts.items():
         if path == P + 'reader::Reader':
             rdr = {fl_['name']: fl_['ty'] for fl_ in a['variants'][0]['fields']}
-    ctx.ob('FRAMING', 'sync-16-bytes', bool(wr) and bool(rdr) and wr.get('sync_marker') == '[u8; 16]' and rdr.get('sync_marker') == '[u8; 16]', None,
+    ctx.ob('FRAMING', 'sync-16-bytes', bool(wr) and bool(rdr) and array_newtype(f, wr.get('sync_marker') or '', 16) and array_newtype(f, rdr.get('sync_marker') or '', 16), None,
            'sync marker types: writer %s, reader %s' % ((wr or {}).get('sync_marker'), (rdr or {}).get('sync_marker')))
     # header: sync marker written after metadata, then whole buffer to the sink; Ok only after
     was = [(bb, t) for bb, t in bw.calls() if (t.get('callee') or '') == 'std::io::Write::write_all']
